@@ -52,6 +52,8 @@ def pair_menu(ref, typ, d):
         if vals:
             menu.append((k, vals[0]))
             menu.append((k, "~" + vals[0]))
+        menu.append((k, "*"))
+        menu.append((k, ">"))
     for b2, ch in ref.key_types.items():
         if b2 != base:
             f = [k for k in ch if k not in chain]
